@@ -356,6 +356,10 @@ func (s *controlledSelector) shouldSwitchSelectedPair(pair, selectedPair *Candid
 		s.log.Debugf("Accepting renomination to pair %s (nomination value: %d)", pair, *nominationValue)
 
 		return true
+	case s.lastNomination != nil:
+		// The controlling side is using renomination: a plain nomination that is
+		// still under way must not override a nomination value already accepted.
+		return false
 	}
 
 	// Standard ICE nomination without renomination - apply priority rules
@@ -447,7 +451,7 @@ func (s *controlledSelector) HandleSuccessResponse(
 		}
 	} else if pair.nominateOnBindingSuccess {
 		if selectedPair := s.agent.getSelectedPair(); selectedPair == nil ||
-			(selectedPair != pair &&
+			(selectedPair != pair && s.lastNomination == nil &&
 				(!s.agent.needsToCheckPriorityOnNominated() || selectedPair.priority() <= pair.priority())) {
 			s.agent.setSelectedPair(pair)
 		} else if selectedPair != pair {
@@ -518,7 +522,10 @@ func (s *controlledSelector) HandleBindingRequest(message *stun.Message, local, 
 			// candidate pair state to Failed, and set the checklist state to
 			// Failed.
 			pair.nominateOnBindingSuccess = true
-			pair.deferredNominationValue = nominationValue
+			if nominationValue != nil || s.lastNomination == nil {
+				// (a plain nomination does not erase a deferred renomination of the same pair)
+				pair.deferredNominationValue = nominationValue
+			}
 		}
 	}
 
